@@ -133,13 +133,20 @@ func (p *Prog) EffectSites(entry *ssa.Function, id string, isEffect func(ssa.Ins
 // CutAt: within e.Fn, the edges carrying a fact accepted by pred (plus edges infeasible under assume) cut entry -> at.
 // Returns the accepted facts that took part.
 func (e *Env) CutAt(at ssa.Instruction, pred func(Fact) bool, assume []Fact) ([]Fact, bool) {
+	if r, ok := at.(*ssa.Return); ok {
+		for _, f := range e.tailCallFacts(r) {
+			if sat(pred, f) {
+				return []Fact{f}, true
+			}
+		}
+	}
 	ef := e.EdgeFacts()
 	cut := map[edge]bool{}
 	var used []Fact
 	usedEdges := map[string][]edge{}
 	for ed, fs := range ef {
 		for _, f := range fs {
-			if pred(f) {
+			if sat(pred, f) {
 				cut[ed] = true
 				if _, seen := usedEdges[f.Key()]; !seen {
 					used = append(used, f)
@@ -192,7 +199,7 @@ func (s EffectSite) witnessPath(pred func(Fact) bool) []string {
 	cut := map[edge]bool{}
 	for ed, fs := range e.EdgeFacts() {
 		for _, f := range fs {
-			if pred(f) {
+			if sat(pred, f) {
 				cut[ed] = true
 			}
 		}
